@@ -1,0 +1,53 @@
+//! Re-exports and thin wrappers for the external verification harness.
+//!
+//! Compiled only with `--cfg zip_rs_zip_verif`; adds no behaviour and changes no existing item.
+#![allow(missing_docs)]
+
+pub use crate::cp437::FromCp437;
+pub use crate::crc32::Crc32Reader;
+pub use crate::spec::{
+    CentralDirectoryEnd, Zip64CentralDirectoryEnd, Zip64CentralDirectoryEndLocator,
+    CENTRAL_DIRECTORY_HEADER_SIGNATURE, LOCAL_FILE_HEADER_SIGNATURE, ZIP64_BYTES_THR,
+    ZIP64_ENTRY_THR,
+};
+pub use crate::types::{AesMode, AesVendorVersion, AtomicU64, System, ZipFileData};
+pub use crate::zipcrypto::{ZipCryptoReader, ZipCryptoReaderValid, ZipCryptoValidator};
+
+#[cfg(feature = "aes-crypto")]
+pub use crate::aes::{AesReader, AesReaderValid};
+#[cfg(feature = "aes-crypto")]
+pub use crate::aes_ctr::{Aes128, Aes192, Aes256, AesCipher, AesCtrZipKeyStream};
+
+use std::io::{Read, Seek};
+
+/// `Crc32Reader::new`
+pub fn crc32_reader<R>(inner: R, checksum: u32, ae2_encrypted: bool) -> Crc32Reader<R> {
+    Crc32Reader::new(inner, checksum, ae2_encrypted)
+}
+
+/// Run the buffering ZipCrypto writer: `buffer` is the 12-byte header followed by the payload.
+pub fn zipcrypto_finish(password: &[u8], buffer: Vec<u8>, crc32: u32) -> std::io::Result<Vec<u8>> {
+    crate::zipcrypto::ZipCryptoWriter {
+        writer: Vec::new(),
+        buffer,
+        keys: crate::zipcrypto::ZipCryptoKeys::derive(password),
+    }
+    .finish(crc32)
+}
+
+/// `read::central_header_to_zip_file`
+pub fn central_header_to_zip_file<R: Read + Seek>(
+    reader: &mut R,
+    archive_offset: u64,
+) -> crate::result::ZipResult<ZipFileData> {
+    crate::read::central_header_to_zip_file(reader, archive_offset)
+}
+
+/// `ZipArchive::get_directory_counts`
+pub fn get_directory_counts<R: Read + Seek>(
+    reader: &mut R,
+    footer: &CentralDirectoryEnd,
+    cde_start_pos: u64,
+) -> crate::result::ZipResult<(u64, u64, usize)> {
+    crate::read::ZipArchive::get_directory_counts(reader, footer, cde_start_pos)
+}
